@@ -35,7 +35,11 @@ def run(ctx):
         'averaged values',
         'R6 every exchange term of the update operators has the form '
         'coefficient x (T[neighbour] - T[self]) with the neighbour as '
-        'minuend']
+        'minuend',
+        'R7 the step requirement is evaluated at the temperatures it names: '
+        'Material.update re-evaluates every property on every call (no '
+        'cached / early exit), so the evaluation at the inlet cannot be '
+        'skipped because a temperature label already matches']
     ctx.not_decided += ['non-negativity of the physical inputs (conductivity, '
                         'htc, flow, lengths, swirl velocity) is assumed',
                         'run-time neighbour multisets agree with the '
@@ -46,6 +50,8 @@ def run(ctx):
     r3(ctx)
     r5(ctx)
     r6(ctx)
+    r7(ctx)
+    ctx.min_instances('C04.R7', 2)
     ctx.min_instances('C04.R1', 10)
     ctx.min_instances('C04.R2', 30)
     ctx.min_instances('C04.R3', 5)
@@ -827,3 +833,36 @@ def r6(ctx):
                           'form neighbour - self: it was removed or its '
                           'orientation was reversed' % p[:90],
                           key='%s | missing %s' % (fi.full, p[:70]))
+
+
+# ---------------------------------------------------------------------------
+# R7: property evaluation cannot be skipped
+
+def r7(ctx):
+    from ..cfg import cfg_of
+    for cls_ in ('Material',):
+        ci = ctx.repo.cls('material', cls_)
+        m = ci.methods.get('update')
+        if m is None:
+            raise AnalysisError('Material.update vanished')
+        g = cfg_of(m)
+        sets = g.find(lambda n: isinstance(n, ast.Call) and
+                      call_name(n) == 'setattr')
+        loops = [n for n in walk_no_nested(m.node) if isinstance(n, ast.For)
+                 and '_data' in src(n.iter)]
+        ok = len(sets) >= 1 and len(loops) == 1 and not U.guards(loops[0])
+        early = [n for n in walk_no_nested(m.node)
+                 if isinstance(n, ast.Return) and n.lineno < (
+                     loops[0].lineno if loops else 0)]
+        ctx.require(ok and not early, 'C04.R7', m,
+                    early[0] if early else m.node,
+                    'Material.update must evaluate every property function '
+                    'at the requested temperature on every call (an early '
+                    'return / cache makes later evaluations depend on what '
+                    'the label was set to before)',
+                    key=m.full + ' | unconditional evaluation')
+        tp = [st for t, st in U.stores(m.node) if src(t) == 'self.temperature']
+        ctx.require(len(tp) == 1 and not U.guards(tp[0]), 'C04.R7', m,
+                    tp[0] if tp else m.node,
+                    'the temperature label is set with the evaluation',
+                    key=m.full + ' | label')
